@@ -331,7 +331,10 @@ func (g *c30Gen) simple() string {
 	case 6:
 		return r.Pick([]string{"arr=(1 2 3)", "arr+=(z)", "arr[5]=five", "declare -a arr=(p q)", "declare -A m=([k]=v)", "m[k]=w", "declare -n ref=x", "declare -i x=3", "declare -x y", "declare -r z=ro", "declare -p x"})
 	case 7:
-		return r.Pick([]string{"f() { echo f:$1:$#; return 3; }", "f() { local x=loc; echo $x; }", "g() { f sub; x=gx; }", "f() { exit 6; }", "f() { set -- fa fb; shift; echo $1; }"})
+		// braces around the definition: in `f() { …; } && f` the parser takes the whole and-or list as
+		// the function body (bash does not), which makes f call itself without end — a parser
+		// matter, not a reuse matter
+		return "{ " + r.Pick([]string{"f() { echo f:$1:$#; return 3; }", "f() { local x=loc; echo $x; }", "g() { f sub; x=gx; }", "f() { exit 6; }", "f() { set -- fa fb; shift; echo $1; }"}) + "; }"
 	case 8:
 		return r.Pick([]string{"f", "f a", "g", "f a b c", "type f", "declare -f f"})
 	case 9:
@@ -361,7 +364,7 @@ func (g *c30Gen) simple() string {
 		// has returned (inherent to background jobs, not to reuse)
 		return r.Pick([]string{": & wait", "(exit 3) & wait", "y=5 & wait", "wait", "wait; echo $?", "{ :; } & wait $!", "wait g1", "wait g9", "echo bg & wait; echo $?"})
 	case 22:
-		return r.Pick([]string{"getopts ab: opt -a -b v; echo $opt $OPTIND", "getopts ab: opt -ab v", "getopts ab: opt", "OPTIND=1", "OPTIND=3"})
+		return r.Pick([]string{"getopts ab: opt -a -b v; echo $opt $OPTIND", "getopts ab: opt -a x", "getopts ab: opt", "OPTIND=1", "OPTIND=3"}) // no grouped flags (`-ab`): a stale getopts cursor panics (C28's finding)
 	case 23:
 		return r.Pick([]string{"read v <<< \"in put\"; echo $v", "read x y <<< 'a b c'", "IFS=:", "IFS=", "read -r z <<EOF\nhe\\re\nEOF", "mapfile -t arr <<< $'l1\\nl2'"})
 	case 24:
@@ -371,7 +374,7 @@ func (g *c30Gen) simple() string {
 	case 26:
 		return r.Pick([]string{"x=1 f", "y=tmp echo $y", "EV=changed", "unset EV", "export EV=exp", "HOME=/", "PWD=/fake", "OLDPWD=/o"})
 	case 27:
-		return r.Pick([]string{"echo ${nope?msg}", "echo ${x:?need}", "echo $((1/0))", "echo ${!x}", "let x++", "((x+=2))", "[[ $x == 1* ]]", "[ -n \"$y\" ]", "test -d a"})
+		return r.Pick([]string{"echo ${nope?msg}", "echo ${x:?need}", "echo $((1/0))", "echo ${#x}", "let x++", "((x+=2))", "[[ $x == 1* ]]", "[ -n \"$y\" ]", "test -d a"})
 	case 28:
 		return "printf '%s|' " + g.word() + " " + g.word() + "; echo"
 	case 29:
@@ -527,6 +530,9 @@ func c30ResetCheck(c *Ctx, k c30ResetCase) (what string, tags []string) {
 	if a.TimedOut || b.TimedOut {
 		return "", append(tags, "p-timeout")
 	}
+	if a.Panic != "" && b.Panic != "" {
+		return "", append(tags, "panic-both-skipped")
+	}
 	if a != b {
 		return "running P differs: reused " + a.String() + " ≠ fresh " + b.String(), tags
 	}
@@ -539,6 +545,9 @@ func c30ResetCheck(c *Ctx, k c30ResetCase) (what string, tags []string) {
 	da := used.runSrc(c30Dump, "")
 	db := fresh.runSrc(c30Dump, "")
 	da.Stdout, db.Stdout = c30SortAliases(da.Stdout), c30SortAliases(db.Stdout)
+	if da.TimedOut || db.TimedOut || (da.Panic != "" && db.Panic != "") {
+		return "", append(tags, "dump-timeout-or-panic")
+	}
 	if da != db {
 		return "state dump after P differs: reused " + da.String() + " ≠ fresh " + db.String(), tags
 	}
@@ -613,6 +622,10 @@ func c30IncrCheck(c *Ctx, name, src string) (what string, tags []string) {
 	i, nrun := ir.runIncr(src, name)
 	if w.TimedOut || i.TimedOut {
 		return "", []string{"timeout"}
+	}
+	if w.Panic != "" && i.Panic != "" {
+		// a Go panic in both runs is property C28's business; what Run "returned" is undefined
+		return "", []string{"panic-both-skipped"}
 	}
 	tags = append(tags, fmt.Sprintf("runs=%d", min(nrun, 6)))
 	if i.Exited {
